@@ -198,8 +198,10 @@ def hotEmit (w : W) : Notif → W × List Dlv
   | t =>
     if w.hotOpen then
       let w1 := { w with hotOpen := false }
-      -- `filter(|o| !o.p_is_closed())`: cell empty, or `S.is_finished()`
-      if w.hotEntry && w.connCell && w.subj.observers.isSome then
+      -- every entry of `H` is handed the terminal (no `p_is_closed()` filter since `fix:
+      -- Subject::error/complete hand the terminal to every subscriber`): the cell is taken and
+      -- `TapObserver{S}` called — an inner subject `S` that is finished ignores it
+      if w.hotEntry && w.connCell then
         tapCall { w1 with connCell := false } t
       else (w1, [])
     else (w, [])
